@@ -38,7 +38,7 @@ ASSUMPTIONS = [
 ]
 BUDGET = {
     "quick": dict(cases=600, shards=4, timeout=900),
-    "thorough": dict(cases=3000, shards=16, timeout=3000),
+    "thorough": dict(cases=7000, shards=16, timeout=3600),
 }
 CLASSES = [
     "slp_tensor", "slp_packed", "walk", "greedy", "dist", "walk_hostile", "slp_tensor", "greedy_ties",
